@@ -518,9 +518,9 @@ fn run_cold_open(sc: &Scenario, seed: u64, run_no: u64) -> SchedOutcome {
             env.put(k, 300);
             let _ = db.verif_force_flush();
         }
-        let _ = wait_quiescent(&db, Duration::from_secs(20));
+        let _ = wait_quiescent(&db, Duration::from_secs(60));
         db.compact_range(None..None);
-        let _ = wait_quiescent(&db, Duration::from_secs(20));
+        let _ = wait_quiescent(&db, Duration::from_secs(60));
         let v = *env.next_vid.lock();
         v
     };
@@ -543,7 +543,7 @@ fn run_cold_open(sc: &Scenario, seed: u64, run_no: u64) -> SchedOutcome {
             Ok(d) => Arc::new(d),
             Err(e) => return fail(&sink, format!("reopen failed {}", e)),
         };
-        let _ = wait_quiescent(&db, Duration::from_secs(20));
+        let _ = wait_quiescent(&db, Duration::from_secs(60));
         let env = Arc::new(Env {
             db: Arc::clone(&db),
             sink: Arc::clone(&sink),
@@ -569,7 +569,7 @@ fn run_cold_open(sc: &Scenario, seed: u64, run_no: u64) -> SchedOutcome {
                 ));
             }
             for (name, rx) in rxs {
-                if rx.recv_timeout(Duration::from_secs(20)).is_err() {
+                if rx.recv_timeout(Duration::from_secs(60)).is_err() {
                     sink.emit_json("Hang", json!({"what": format!("cold reader {}", name)}));
                     status = "hang".into();
                 }
@@ -584,7 +584,7 @@ fn run_cold_open(sc: &Scenario, seed: u64, run_no: u64) -> SchedOutcome {
             for k in 1..=16 {
                 env.get(k);
             }
-            let _ = wait_quiescent(&db, Duration::from_secs(20));
+            let _ = wait_quiescent(&db, Duration::from_secs(60));
         }
         next_vid = *env.next_vid.lock();
         env_last = Some(env);
@@ -597,7 +597,7 @@ fn run_cold_open(sc: &Scenario, seed: u64, run_no: u64) -> SchedOutcome {
         env.scan(false, false);
         env.put(3, 40);
         env.get(3);
-        let _ = wait_quiescent(&db, Duration::from_secs(20));
+        let _ = wait_quiescent(&db, Duration::from_secs(60));
     }
     let env = env_last.take().unwrap();
     for p in peek_panics() {
@@ -613,7 +613,7 @@ fn run_cold_open(sc: &Scenario, seed: u64, run_no: u64) -> SchedOutcome {
         match Arc::try_unwrap(db) {
             Ok(db) => {
                 let rx = spawn_named("closer", move || drop(db));
-                if rx.recv_timeout(Duration::from_secs(20)).is_err() {
+                if rx.recv_timeout(Duration::from_secs(60)).is_err() {
                     sink.emit_json("Hang", json!({"what": "close"}));
                     status = "hang".into();
                 }
@@ -699,7 +699,7 @@ fn run_manual_rotate(sc: &Scenario, seed: u64, run_no: u64) -> SchedOutcome {
                 let _ = db.verif_force_flush();
             }
         }
-        let _ = wait_quiescent(&db, Duration::from_secs(20));
+        let _ = wait_quiescent(&db, Duration::from_secs(60));
         let _ = round;
     }
     ctl.arm_next(BG, "compact_loop");
@@ -742,7 +742,7 @@ fn run_manual_rotate(sc: &Scenario, seed: u64, run_no: u64) -> SchedOutcome {
         ctl.release(BG);
     }
     for (name, rx) in callers {
-        if rx.recv_timeout(Duration::from_secs(20)).is_err() {
+        if rx.recv_timeout(Duration::from_secs(60)).is_err() {
             sink.emit_json("Hang", json!({"what": format!("caller {}", name)}));
             status = "hang".into();
         }
@@ -756,12 +756,12 @@ fn run_manual_rotate(sc: &Scenario, seed: u64, run_no: u64) -> SchedOutcome {
             }
             e2.scan(false, false);
         });
-        if rx.recv_timeout(Duration::from_secs(20)).is_err() {
+        if rx.recv_timeout(Duration::from_secs(60)).is_err() {
             sink.emit_json("Hang", json!({"what": "writer after manual compaction"}));
             status = "hang".into();
         }
     }
-    if status == "ok" && wait_quiescent(&db, Duration::from_secs(20)).is_none() {
+    if status == "ok" && wait_quiescent(&db, Duration::from_secs(60)).is_none() {
         sink.emit_json("Hang", json!({"what": "background work does not settle"}));
         status = "hang".into();
     }
@@ -778,7 +778,7 @@ fn run_manual_rotate(sc: &Scenario, seed: u64, run_no: u64) -> SchedOutcome {
         match Arc::try_unwrap(db) {
             Ok(db) => {
                 let rx = spawn_named("closer", move || drop(db));
-                if rx.recv_timeout(Duration::from_secs(20)).is_err() {
+                if rx.recv_timeout(Duration::from_secs(60)).is_err() {
                     sink.emit_json("Hang", json!({"what": "close"}));
                     status = "hang".into();
                 }
@@ -867,7 +867,7 @@ pub fn run_tlc_schedule(schedule: &[String], tag: &str, seed: u64, run_no: u64) 
                     let _ = db.verif_force_flush();
                 }
             }
-            let _ = wait_quiescent(&db, Duration::from_secs(20));
+            let _ = wait_quiescent(&db, Duration::from_secs(60));
         }
         vec!["c1", "c2", "wr"]
     } else {
@@ -877,7 +877,7 @@ pub fn run_tlc_schedule(schedule: &[String], tag: &str, seed: u64, run_no: u64) 
             env.put(k, 40);
         }
         let _ = db.verif_force_flush();
-        let _ = wait_quiescent(&db, Duration::from_secs(20));
+        let _ = wait_quiescent(&db, Duration::from_secs(60));
         env.put(1, 120);
         env.put(2, 120);
         vec!["w1", "w2", "w3", "r1", "r2"]
@@ -954,7 +954,7 @@ pub fn run_tlc_schedule(schedule: &[String], tag: &str, seed: u64, run_no: u64) 
         if finished_rx.contains(&name) {
             continue;
         }
-        if rx.recv_timeout(Duration::from_secs(20)).is_err() {
+        if rx.recv_timeout(Duration::from_secs(60)).is_err() {
             sink.emit_json("Hang", json!({"what": format!("thread {} after the schedule", name)}));
             status = "hang".into();
         }
@@ -964,7 +964,7 @@ pub fn run_tlc_schedule(schedule: &[String], tag: &str, seed: u64, run_no: u64) 
             env.get(k);
         }
         env.scan(false, false);
-        if wait_quiescent(&db, Duration::from_secs(20)).is_none() {
+        if wait_quiescent(&db, Duration::from_secs(60)).is_none() {
             sink.emit_json("Hang", json!({"what": "background work does not settle"}));
             status = "hang".into();
         }
@@ -982,7 +982,7 @@ pub fn run_tlc_schedule(schedule: &[String], tag: &str, seed: u64, run_no: u64) 
         match Arc::try_unwrap(db) {
             Ok(db) => {
                 let rx = spawn_named("closer", move || drop(db));
-                if rx.recv_timeout(Duration::from_secs(20)).is_err() {
+                if rx.recv_timeout(Duration::from_secs(60)).is_err() {
                     sink.emit_json("Hang", json!({"what": "close"}));
                     status = "hang".into();
                 }
@@ -1072,7 +1072,7 @@ pub fn run_scenario(sc: &Scenario, seed: u64, run_no: u64) -> SchedOutcome {
     for k in 1..=3 {
         env.put(k, 40);
     }
-    let _ = wait_quiescent(&db, Duration::from_secs(20));
+    let _ = wait_quiescent(&db, Duration::from_secs(60));
     // the value the victim should see lives in the ACTIVE memtable when the victim starts
     env.put(2, 40);
     env.batch(&[5, 6], 30);
@@ -1118,11 +1118,11 @@ pub fn run_scenario(sc: &Scenario, seed: u64, run_no: u64) -> SchedOutcome {
                 env.put(hot, 40);
                 if sc.script != "overwrite_rotate" {
                     let _ = db.verif_force_flush();
-                    let _ = wait_quiescent(&db, Duration::from_secs(20));
+                    let _ = wait_quiescent(&db, Duration::from_secs(60));
                 }
                 if sc.script == "flush_compact" || sc.script == "delete_flush_compact" {
                     db.compact_range(None..None);
-                    let _ = wait_quiescent(&db, Duration::from_secs(20));
+                    let _ = wait_quiescent(&db, Duration::from_secs(60));
                     env.put(hot, 40);
                     env.put(5, 40);
                 }
@@ -1177,7 +1177,7 @@ pub fn run_scenario(sc: &Scenario, seed: u64, run_no: u64) -> SchedOutcome {
                         e3.get(k);
                     }
                 });
-                if rx.recv_timeout(Duration::from_secs(20)).is_err() {
+                if rx.recv_timeout(Duration::from_secs(60)).is_err() {
                     hang("reader while writer suspended", &sink);
                     status = "hang".into();
                 }
@@ -1186,12 +1186,12 @@ pub fn run_scenario(sc: &Scenario, seed: u64, run_no: u64) -> SchedOutcome {
         }
     }
     ctl.release("v");
-    if vrx.recv_timeout(Duration::from_secs(20)).is_err() {
+    if vrx.recv_timeout(Duration::from_secs(60)).is_err() {
         hang("victim after release", &sink);
         status = "hang".into();
     }
     for (name, rx) in helpers {
-        if rx.recv_timeout(Duration::from_secs(20)).is_err() {
+        if rx.recv_timeout(Duration::from_secs(60)).is_err() {
             hang(&format!("queued writer {}", name), &sink);
             status = "hang".into();
         }
@@ -1202,7 +1202,7 @@ pub fn run_scenario(sc: &Scenario, seed: u64, run_no: u64) -> SchedOutcome {
             env.get(k);
         }
         env.scan(false, false);
-        let _ = wait_quiescent(&db, Duration::from_secs(20));
+        let _ = wait_quiescent(&db, Duration::from_secs(60));
     }
     for p in peek_panics() {
         sink.emit_json(
@@ -1217,7 +1217,7 @@ pub fn run_scenario(sc: &Scenario, seed: u64, run_no: u64) -> SchedOutcome {
         match Arc::try_unwrap(db) {
             Ok(db) => {
                 let rx = spawn_named("closer", move || drop(db));
-                if rx.recv_timeout(Duration::from_secs(20)).is_err() {
+                if rx.recv_timeout(Duration::from_secs(60)).is_err() {
                     hang("close", &sink);
                     status = "hang".into();
                 }
